@@ -398,3 +398,43 @@ Fixpoint wf_tree_b (t : tree) : bool :=
     && nodup_b (map fst kids)
     && forallb (fun nk => match nk with (_, k) => wf_tree_b k end) kids
   end.
+
+(* ====================================================================================== *)
+(* Declarative notions used by the theorems (Properties/C09.v). *)
+
+(* what a kernel directory guarantees about a name *)
+Definition wf_name (n : bytes) : Prop := n <> [] /\ ~ In sep n /\ n <> s_dot /\ n <> s_dotdot.
+
+(* names well formed, siblings distinct, only directories have children *)
+Inductive wf_tree : tree -> Prop :=
+| wf_T r kids :
+    (is_dir r = false -> kids = []) ->
+    Forall (fun nk => wf_name (fst nk)) kids ->
+    NoDup (map fst kids) ->
+    Forall (fun nk => wf_tree (snd nk)) kids ->
+    wf_tree (T r kids).
+
+(* [tree_at t cs r]: following the names cs from the root of t leads to a node whose lstat record is r *)
+Inductive tree_at : tree -> list bytes -> lrec -> Prop :=
+| at_here r kids : tree_at (T r kids) [] r
+| at_kid r kids n k cs r' : In (n, k) kids -> tree_at k cs r' -> tree_at (T r kids) (n :: cs) r'.
+
+(* st_nlink counts every name of an inode: two different non-directory names of one inode both
+   have nlink > 1 (kernel guarantee for a tree that does not change during the walk) *)
+Definition ino_consistent (t : tree) : Prop :=
+  forall cs1 r1 cs2 r2,
+    tree_at t cs1 r1 -> tree_at t cs2 r2 -> cs1 <> cs2 ->
+    is_dir r1 = false -> is_dir r2 = false -> l_ino r1 = l_ino r2 ->
+    N.ltb 1 (l_nlink r1) = true.
+
+Definition path_lt (p q : bytes) : Prop := compare_path p q = Lt.
+
+(* state of seenFiles after the callback has seen a prefix of the WalkDir sequence *)
+Fixpoint seen_after (seen : list (N * bytes)) (l : list (bytes * lrec)) : list (N * bytes) :=
+  match l with
+  | [] => seen
+  | (p, r) :: l' => seen_after (snd (mkstat p r seen)) l'
+  end.
+
+(* the Stat of an entry when no earlier entry shares its inode *)
+Definition base_stat (p : bytes) (r : lrec) : stat := fst (mkstat p r []).
